@@ -42,11 +42,11 @@ def cases(draw):
     contents = draw(st.lists(gen.content_spec(mn, mx), min_size=2, max_size=5))
     snaps = []
     base = draw(st.integers(946684800, 4000000000))
-    nsn = draw(st.sampled_from([1, 2, 3, 3, 4, 5, 6]))
+    nsn = draw(st.sampled_from([1, 2, 3, 4, 4, 5, 6]))
     order = draw(st.permutations(list(range(nsn))))        # timestamp rank of the i-th created snapshot
     gap = draw(st.sampled_from([1, 1, 60, 3600, 86400, 86400 * 31]))
     for i in range(nsn):
-        files = draw(st.lists(st.tuples(st.one_of(st.integers(0, 1), st.integers(0, 4)), st.integers(0, 4)), min_size=0, max_size=4))
+        files = draw(st.lists(st.tuples(st.one_of(st.integers(0, 1), st.integers(0, 1), st.integers(0, 4)), st.integers(0, 4)), min_size=draw(st.sampled_from([0, 1, 1, 2])), max_size=4))
         t = (base + order[i] * gap, draw(st.sampled_from([0, 0, 1, 500000, 999999])) if gap > 1 else order[i] * 7)
         snaps.append({'files': [list(f) for f in files], 'ts': list(t),
                       'note': draw(st.sampled_from([None, None, 'n', 'weekly backup', 'tab\there']))})
